@@ -690,7 +690,7 @@ fn gen(a: &Args) {
 
 /// Oracle only (no model): every fitting row builds, reads back bit-identical, and a reused
 /// builder produces the same bytes as a new one.  FAIL lines carry the defect class computed by
-/// `known_class` (0 = none of the recorded ones).
+/// `known_class` (0 = not the recorded one).
 fn search(a: &Args) {
     let mut rng = Rng::new(a.seed ^ 0xC31C31);
     let mut fails: Vec<String> = vec![];
